@@ -83,6 +83,31 @@ static void install_wrapper() {
 }
 static void remove_wrapper() { PlatformSpecificMutexLock = real_lock; PlatformSpecificMutexUnlock = real_unlock; }
 
+// ------------------------------------------------------------------ mutual-exclusion monitor inside the locked region
+// The detector calls the current allocators while it holds its lock. These allocators (same names as the
+// defaults, so family matching is unchanged) count how many threads are inside an allocator callback at once.
+// One of them can be armed to hold the lock for more than 3 s once (a slow or descheduled owner).
+static std::atomic<int> g_inside(0);
+static std::atomic<uint64_t> g_overlaps(0), g_callbacks(0);
+static std::atomic<int> g_slow_armed(0);
+struct MonAlloc : public TestMemoryAllocator {
+    MonAlloc(const char* n, const char* a, const char* f) : TestMemoryAllocator(n, a, f) {}
+    char* alloc_memory(size_t size, const char* file, size_t line) CPPUTEST_OVERRIDE {
+        if (g_inside.fetch_add(1) > 0) g_overlaps++;
+        g_callbacks++;
+        if (size >= 3001 && size < 3200 && g_slow_armed.load() && g_slow_armed.exchange(0)) { struct timespec ts = { 3, 300000000 }; nanosleep(&ts, nullptr); }
+        char* p = TestMemoryAllocator::alloc_memory(size, file, line);
+        g_inside.fetch_sub(1);
+        return p;
+    }
+    void free_memory(char* memory, size_t size, const char* file, size_t line) CPPUTEST_OVERRIDE {
+        if (g_inside.fetch_add(1) > 0) g_overlaps++;
+        g_callbacks++;
+        TestMemoryAllocator::free_memory(memory, size, file, line);
+        g_inside.fetch_sub(1);
+    }
+};
+
 // ------------------------------------------------------------------ recording (non-jumping) reporter
 struct RecReporter : public MemoryLeakFailure {
     int calls = 0; char first[300];
@@ -97,7 +122,7 @@ struct Mail { std::atomic<uintptr_t> p; std::atomic<size_t> size; std::atomic<in
 static Mail g_mail[MAILBOXES];
 
 struct Worker {
-    int id; uint64_t seed; int ops; int delay_pct; bool use_mail;
+    int id; uint64_t seed; int ops; int delay_pct; bool use_mail; bool long_hold;
     Slot slots[SLOTS];
     // results
     uint64_t allocs_ok, reallocs_ok, frees, pattern_errors, null_results, mailed, received;
@@ -147,6 +172,10 @@ static void* worker_main(void* arg) {
     vf::Rng rng(w.seed, (uint64_t) w.id, 77);
     t_id = w.id; t_rng = &rng; t_delay_pct = w.delay_pct;
     pthread_barrier_wait(&g_barrier);
+    if (w.long_hold) {          // this allocation makes the (armed) allocator sleep > 3 s while the detector lock is held
+        char* p = (char*) ::operator new[](3001);
+        if (p) { w.allocs_ok++; w.slots[0].p = p; w.slots[0].size = 3001; w.slots[0].fam = F_NEWARR; w.slots[0].tag = 7; fill(p, 3001, 7); }
+    }
     for (int op = 0; op < w.ops; op++) {
         int s = (int) rng.below(SLOTS);
         Slot& sl = w.slots[s];
@@ -215,15 +244,18 @@ static void parse_report(const char* rep, std::vector<unsigned>& nums, std::vect
     if (f) footer_total = atol(f + strlen("Total number of leaks: "));
 }
 
-static void sec_concurrent(vf::Ctx& c) {
+static void concurrent_run(vf::Ctx& c, bool long_hold);
+static void sec_concurrent(vf::Ctx& c) { concurrent_run(c, false); }
+static void sec_long_hold(vf::Ctx& c) { concurrent_run(c, true); }
+static void concurrent_run(vf::Ctx& c, bool long_hold) {
     static const int TS[] = { 2, 3, 4, 8, 16 };
-    int T = c.thorough ? TS[c.rng.below(5)] : TS[c.rng.below(4)];
-    int ops = c.thorough ? c.rng.range(800, 5000) : c.rng.range(300, 1500);
+    int T = long_hold ? 3 : c.thorough ? TS[c.rng.below(5)] : TS[c.rng.below(4)];
+    int ops = long_hold ? 400 : c.thorough ? c.rng.range(800, 5000) : c.rng.range(300, 1500);
     int delay_pct = (int) c.rng.below(4) * 15;                    // 0, 15, 30, 45 % of lock operations perturbed
     bool use_mail = c.rng.chance(50);
     uint64_t seed = c.rng.next();
     int save_restore_pairs = c.rng.chance(50) ? c.rng.range(1, 2) : 0;
-    c.begin([=] { return vf::J().k("threads", T).k("ops_per_thread", ops).k("delay_pct", delay_pct).k("cross_thread_handoff", use_mail).k("save_restore_pairs_after_switch", save_restore_pairs).k("script_seed", (unsigned long long) seed).str(); });
+    c.begin([=] { return vf::J().k("threads", T).k("ops_per_thread", ops).k("delay_pct", delay_pct).k("cross_thread_handoff", use_mail).k("save_restore_pairs_after_switch", save_restore_pairs).k("owner_holds_lock_over_3s_once", long_hold).k("script_seed", (unsigned long long) seed).str(); });
 
     // private detector, created and destroyed with the overloads off
     MemoryLeakWarningPlugin::saveAndDisableNewDeleteOverloads();
@@ -244,8 +276,11 @@ static void sec_concurrent(vf::Ctx& c) {
     for (int i = 1; i <= T; i++) {
         Worker& w = g_workers[i];
         memset((void*) &w, 0, sizeof w);
-        w.id = i; w.seed = seed; w.ops = ops; w.delay_pct = delay_pct; w.use_mail = use_mail;
+        w.id = i; w.seed = seed; w.ops = ops; w.delay_pct = delay_pct; w.use_mail = use_mail; w.long_hold = long_hold && i == 1;
     }
+    static MonAlloc monNew("Standard New Allocator", "new", "delete"), monArr("Standard New [] Allocator", "new []", "delete []"), monMal("Standard Malloc Allocator", "malloc", "free");
+    setCurrentNewAllocator(&monNew); setCurrentNewArrayAllocator(&monArr); setCurrentMallocAllocator(&monMal);
+    g_inside = 0; g_overlaps = 0; g_callbacks = 0; g_slow_armed = long_hold ? 1 : 0;
     MemoryLeakWarningPlugin::restoreNewDeleteOverloads();
     MemoryLeakWarningPlugin::turnOnThreadSafeNewDeleteOverloads();
     // users bracket third-party code with save/restore; thread-safe mode must survive such a pair (no allocation in between)
@@ -256,8 +291,12 @@ static void sec_concurrent(vf::Ctx& c) {
     MemoryLeakWarningPlugin::turnOnDefaultNotThreadSafeNewDeleteOverloads();
     MemoryLeakWarningPlugin::saveAndDisableNewDeleteOverloads();
     remove_wrapper();
+    setCurrentNewAllocatorToDefault(); setCurrentNewArrayAllocatorToDefault(); setCurrentMallocAllocatorToDefault();
+    g_slow_armed = 0;
 
     // ---- quiescent point: model vs detector
+    if (g_overlaps.load()) c.violation("critical-section-overlap", std::to_string(g_overlaps.load()) + " allocator callbacks (made while the detector lock is held) started while another thread was inside one" + (long_hold ? " [one owner held the lock for 3.3 s]" : ""));
+
     uint64_t allocs = 0, reallocs = 0, held = 0, pattern_errors = 0, mailed = 0, received = 0, nulls = 0;
     std::vector<size_t> held_sizes;
     for (int i = 1; i <= T; i++) {
@@ -307,7 +346,9 @@ static void sec_concurrent(vf::Ctx& c) {
     in_mail.clear(); in_mail.shrink_to_fit(); held_sizes.clear(); held_sizes.shrink_to_fit();
     MemoryLeakWarningPlugin::restoreNewDeleteOverloads();
 
-    // evidence
+    // evidence (only here: the counters' map nodes must be allocated and freed under the same overload regime)
+    c.count("allocator_callbacks_under_lock", g_callbacks.load());
+    if (long_hold) c.count("runs_with_owner_holding_lock_over_3s");
     c.count("lock_acquisitions", g_acquisitions);
     c.count("lock_handoffs_between_threads", g_handoffs);
     c.count("thread_ops", (uint64_t) T * (uint64_t) ops);
@@ -410,6 +451,7 @@ int main(int argc, char** argv) {
 #else
         { "concurrent_scripts", 60, 600, sec_concurrent, false },
 #endif
+        { "owner_holds_lock_over_3s", 1, 3, sec_long_hold, false },
         { "misuse_while_locked", E_N * K_N * 4, E_N * K_N * 4, sec_misuse, true },
     };
     return vf::harness_main(argc, argv, S);
